@@ -106,7 +106,9 @@ def run(ctx):
     for plat in PLATFORMS:
         ctx.model_check("C19", cfg_text="SPECIFICATION Spec\nINVARIANT WellFormed\n" + _cfg(plat, ctx.pick(2, 3), 2), env=ENV,
                         label="S:C19 URL-building machine, %s" % plat)
-        data, _ = ctx.generate("Gen_C19", cfg_text="INIT GenInit\nNEXT GenNext\n" + _cfg(plat, ctx.pick(2, 3), 2, " NRand = %d\n" % ctx.pick(400, 6000)), env=ENV,
+        # (thorough: the exhaustive part stays at 2 segments - 3 would be ~10 M URLs with today's vocabularies - and the
+        #  sampled 4-segment paths and the item combinations grow instead)
+        data, _ = ctx.generate("Gen_C19", cfg_text="INIT GenInit\nNEXT GenNext\n" + _cfg(plat, 2, ctx.pick(2, 3), " NRand = %d\n" % ctx.pick(400, 40000)), env=ENV,
                                heap="12g", out="gen_c19_%s.json" % plat)
         for u in sorted(data["urls"]):
             cases.append({"plat": plat, "u": u})
